@@ -119,6 +119,9 @@ func (c *Connection) sendMessage(ctx context.Context, msg *Message) error {
 	}
 	select {
 	case c.outgoing <- prepared:
+	case <-c.writeLoopDone:
+		// nothing will ever drain the buffer again, so don't block the caller forever
+		return errors.New("connection closed")
 	case <-ctx.Done():
 		return ctx.Err()
 	}
